@@ -266,6 +266,22 @@ pub fn handle(op: &str, a: &[&str]) -> Option<Resp> {
             }
         }
     }
+    // removal record: the Sources / Binaries lists are the LINES of the field (an entry such as
+    // `foo_1.0-1 [amd64, i386]` has blanks inside): printed back they are the raw value
+    if kind == "removal" {
+        let blank_cont = t.split('\n').any(|l| (l.starts_with(' ') || l.starts_with('\t')) && l.trim().is_empty());
+        if let (Ok(v1), Ok(p)) = (&r1, LL::from_str(&t)) {
+            for key in ["Sources", "Binaries"] {
+                let raw = p.get(key);
+                let typed = v1.structs[0].1.iter().find(|(k, _)| k == key).map(|x| x.1.clone());
+                if let (Some(raw), Some(typed)) = (raw, typed) {
+                    if fail.is_none() && !blank_cont && !raw.contains('\r') && typed != raw {
+                        fail = Some(format!("typed {} {:?} is not the list of lines of the field {:?}", key, typed, raw));
+                    }
+                }
+            }
+        }
+    }
     // DEP-3 header: the typed author / description are what the lossless view of the same text
     // shows (Author, else From; Description, else Subject) -- on well-formed input
     if kind == "dep3" {
@@ -371,7 +387,13 @@ pub fn ext_column_kind(kind: &str, text: &str) -> Option<String> {
     KINDS.iter().find(|k| k.kind == kind).map(|ks| ext_column(ks, text))
 }
 
+/// the E column; computed with the real readers, so a panic there (which the worker will report
+/// with its input) must not take the generator down: the column is then empty
 fn ext_column(ks: &KindSpec, text: &str) -> String {
+    std::panic::catch_unwind(std::panic::AssertUnwindSafe(|| ext_column_inner(ks, text))).unwrap_or_default()
+}
+
+fn ext_column_inner(ks: &KindSpec, text: &str) -> String {
     let mut seen: Vec<(String, String)> = vec![];
     if let Ok(d) = deb822_lossless::Deb822::from_str(text) {
         for p in d.paragraphs() {
